@@ -70,6 +70,10 @@ def run_harness(builder, item, tier, deadline_s, outdir):
             cmd += ["--" + k, str(item[k])]
     if item.get("no_cache"):
         cmd.append("--no-cache")
+    if item.get("tso"):
+        cmd.append("--tso")
+    if item.get("spurious"):
+        cmd.append("--spurious")
     try:
         os.unlink(out)
     except OSError:
@@ -225,6 +229,10 @@ def replay(path):
     cmd = [b.exe(r["exe"]), "--replay", r["harness"], "--choices", r["choices"], "--stderr-dir", os.path.join(VERIF, "build", "run")]
     if r.get("args"):
         cmd += ["--args", ",".join(map(str, r["args"]))]
+    if r.get("tso"):
+        cmd.append("--tso")
+    if r.get("spurious"):
+        cmd.append("--spurious")
     p = subprocess.run(cmd, env=ENV, text=True, stdout=subprocess.PIPE, stderr=subprocess.PIPE)
     sys.stdout.write(p.stdout)
     sys.stderr.write(p.stderr[-6000:])
@@ -297,13 +305,15 @@ def main():
         if is_tsan and cfg != configs[0]:
             continue
         rep, err = run_harness(tsan_builder if is_tsan else builders[cfg], item, tier, max(8.0, share),
-                               os.path.join(outdir, "tsan") if is_tsan else (os.path.join(outdir, cfg) if len(configs) > 1 else outdir))
+                               os.path.join(outdir, "tsan") if is_tsan else os.path.join(outdir, "tso") if item.get("tso") else os.path.join(outdir, "spur") if item.get("spurious") else (os.path.join(outdir, cfg) if len(configs) > 1 else outdir))
         if err:
             engine_errors.append("[%s] %s" % (cfg, err))
             continue
         rep["_item"] = item
         rep["_config"] = cfg
         rep["_flavour"] = "tsan" if is_tsan else "asan"
+        rep["_tso"] = bool(item.get("tso"))
+        rep["_spur"] = bool(item.get("spurious"))
         reports.append(rep)
     # ---- stretch (thorough tier only): spend what is left of the budget on deeper preemption bounds ------------------
     # Every threaded harness that completed its registered bound is re-run at bound+1, cheapest first, round after round,
@@ -332,8 +342,8 @@ def main():
                 if err:
                     engine_errors.append("[stretch] " + err)
                     continue
-                rep["_item"] = item; rep["_config"] = r["_config"]; rep["_flavour"] = r["_flavour"]
-                stretched.append({"harness": rep["harness"], "args": rep["args"], "flavour": rep["_flavour"], "bound": rep["_bound_requested"],
+                rep["_item"] = item; rep["_config"] = r["_config"]; rep["_flavour"] = r["_flavour"]; rep["_tso"] = r.get("_tso", False); rep["_spur"] = r.get("_spur", False)
+                stretched.append({"harness": rep["harness"], "args": rep["args"], "flavour": rep["_flavour"] + ("+tso" if rep["_tso"] else ""), "bound": rep["_bound_requested"],
                                   "complete": rep["exhaustive"], "executions": sum(b["executions"] for b in rep["bounds"]), "wall_s": rep["wall_s"]})
                 if rep["exhaustive"] or rep["failures"]:
                     reports[reports.index(r)] = rep
@@ -415,11 +425,11 @@ def main():
                 continue
             nviol += 1
             os.makedirs(repdir, exist_ok=True)
-            path = os.path.join(repdir, sanitize(sig + ("." + "_".join(map(str, rep["args"])) if rep["args"] else "") + ("." + rep["_config"] if rep["_config"] != "verif" else "") + (".tsan" if rep["_flavour"] == "tsan" else "")) + ".json")
+            path = os.path.join(repdir, sanitize(sig + ("." + "_".join(map(str, rep["args"])) if rep["args"] else "") + ("." + rep["_config"] if rep["_config"] != "verif" else "") + (".tsan" if rep["_flavour"] == "tsan" else "") + (".tso" if rep.get("_tso") else "") + (".spur" if rep.get("_spur") else "")) + ".json")
             json.dump({"property": prop, "exe": rep["_item"]["exe"], "harness": rep["harness"], "args": rep["args"],
                        "bound": f["bound"], "choices": f["choices"], "key": f["key"], "msg": f["msg"], "signature": sig,
                        "outcome": f["outcome"], "failing_schedules": f["count"], "detail": f["detail"],
-                       "flavour": rep["_flavour"], "config": rep["_config"],
+                       "flavour": rep["_flavour"], "config": rep["_config"], "tso": bool(rep.get("_tso")), "spurious": bool(rep.get("_spur")),
                        "how_to_replay": "python3 tools/check.py %s --replay %s" % (prop, path)}, open(path, "w"), indent=1)
             viol_lines.append("VIOLATION property=%s replay=%s" % (prop, path))
             sys.stderr.write("  %s: %s\n" % (sig, f["msg"][:300]))
@@ -433,7 +443,7 @@ def main():
     samples = []
     for r in reports:
         last = [b for b in r["bounds"] if b["complete"]]
-        per.append({"harness": r["harness"] + ("[tsan]" if r["_flavour"] == "tsan" else ""), "args": r["args"], "config": r["_config"], "sequential": r["sequential"],
+        per.append({"harness": r["harness"] + ("[tsan]" if r["_flavour"] == "tsan" else "") + ("[tso]" if r.get("_tso") else "") + ("[spur]" if r.get("_spur") else ""), "args": r["args"], "config": r["_config"], "sequential": r["sequential"],
                     "bound_requested": r["_bound_requested"], "bound_completed": (last[-1]["bound"] if last else None),
                     "executions": sum(b["executions"] for b in r["bounds"]), "states": r["bounds"][-1]["states"] if r["bounds"] else 0,
                     "transitions": sum(b["transitions"] for b in r["bounds"]), "pruned_equivalent": sum(b["pruned"] for b in r["bounds"]),
@@ -461,7 +471,11 @@ def main():
             "sequentially consistent interleavings of the hooked synchronisation operations (atomics, mutexes, condition variables, threads, clock)",
             "bounds as listed per harness; a harness with exhaustive_within_bound=false was cut by the deadline and claims only bound_completed",
             "g++ 12 -O1 with AddressSanitizer; library assertions enabled (no NDEBUG); harnesses marked [tsan] additionally run under clang 14 "
-            "ThreadSanitizer (library and hook layer instrumented, harness monitors not), where a data race on any explored schedule is a violation"],
+            "ThreadSanitizer (library and hook layer instrumented, harness monitors not), where a data race on any explored schedule is a violation",
+            "harnesses marked [tso] are explored a second time in store-buffer mode: every non-seq_cst atomic store may stay invisible to the other threads "
+            "until the storing thread's next barrier (read-modify-write, seq_cst store or fence, lock, blocking call), each such delay costing one unit of "
+            "the same budget as a preemption; this is x86-TSO, a subset of what the C++ memory model allows",
+            "harnesses marked [spur] are explored with spurious condition-variable wake-ups: any wait may return without a notification (one unit of the budget each)"],
         "wall_s": round(wall, 2), "violations": nviol,
     }
     if not a.no_evidence and not a.only:
